@@ -70,8 +70,8 @@ CLAIMED["C13"] = dict(
 
 CLAIMED["C03"] = dict(
     text="Decides structural necessary conditions of replication: reference rewriting in replica/aggregate compilation "
-         "must be escaped and boundary-anchored (SUB rule; today it is not - recorded as known findings with failing "
-         "inputs), replica names and rewritten references share one format and index, indices run over range(N), a "
+         "must be escaped and boundary-anchored (SUB rule; two genuine defects found by it were repaired), the relative "
+         "spelling of a replicated producer is rewritten only for consumers in the producer's stage, replica names and rewritten references share one format and index, indices run over range(N), a "
          "reference counts as replicated only for a positive propagated count of a non-aggregating producer, every "
          "component is emitted by one branch, counts propagate topologically and stop at aggregating components. "
          "Equality of the expanded dataflow with an independent expansion is not decided.",
@@ -89,7 +89,7 @@ CLAIMED["C10"] = dict(
     text="Decides the structural necessary condition of exact substitution in resolveArguments: every content-based "
          "substitution of a reference spelling is escaped and anchored on both sides (then declaration order cannot "
          "matter), the replacement is the value resolved from the same reference, and the argument string is rewritten "
-         "nowhere else. Today's four str.replace sites violate it - genuine, reproduced, recorded as known findings.",
+         "nowhere else. The four str.replace sites that violated it were a genuine, reproduced defect and were repaired.",
     technique="substitution-site lint with pattern-shape analysis (SUB), local def-use of replacement values",
     design="3/C10")
 CLAIMED["C19"] = dict(
